@@ -310,7 +310,10 @@ def run_property(prop: str, tier: str, seed: int, repo: str, only: Optional[str]
         native = None
         if replay_fn is not None:
             try:
-                native = replay_fn(r.model, norm_name(r.name))
+                # (time-limited: the changed code may not terminate on the witness)
+                native = _call_with_timeout((lambda _: replay_fn(r.model, norm_name(r.name)), None, 60.0))
+                if isinstance(native, str):
+                    native = {'failed': False, 'error': native}
             except Exception as e:
                 native = {'failed': False, 'error': f'{type(e).__name__}: {e}'}
         failed = bool(native and native.get('failed'))
